@@ -288,12 +288,15 @@ prop("C16", level="other",
 prop("C17", level="other",
      claim="MIXED LEVEL - unbounded contract obligations where stated, otherwise BOUNDED (complete up to the stated size, not a proof beyond it). as_str()/as_bytes() are exactly (text pointer, len) of the ghost view for every representation (unbounded); ==, !=, cmp, "
            "partial_cmp, < on pairs of arbitrary well-formed handles of different storage kinds equal the bytewise lexicographic order of "
-           "the ghost texts; the same against str, &str and Cow<str> in both argument orders; Hash feeds the text bytes then 0xff exactly "
-           "like str; Display prints exactly the text (texts <= 18 bytes: memcmp / hashing are unwound).",
+           "the ghost texts; the same against str, &str and Cow<str> in both argument orders; Hash makes exactly the two Hasher calls str makes - write(the text slice itself: pointer and length of the ghost text), "
+           "write(0xff) - and Display hands the formatter's sink consecutive slices of the text itself that add up to exactly the text, "
+           "for every storage kind and SYMBOLIC length (unbounded: hash_any_*, display_any_*, pointer-recording Hasher / fmt::Write, "
+           "nothing walks the bytes); byte-copying re-checks of Hash and Display and all comparisons on texts <= 18 / 6 bytes "
+           "(memcmp is unwound - bounded).",
      functions=["PartialEq (9 impls)", "Eq", "Ord", "PartialOrd", "Hash", "Display", "Deref", "AsRef<str>", "AsRef<[u8]>", "Borrow<str>"],
      verus=[], trust=["Debug delegates to str's Debug exactly as Display does (same shape, not run)"],
-     bounded_notes=[{"what": "comparison/hash/Display harnesses: texts <= 18 bytes (6 for Display)"}],
-     not_covered=["PartialEq<String> directions (identical body to the str ones)", "HashMap/BTreeMap lookups (consequence of Borrow + Eq/Hash/Ord agreement)"])
+     bounded_notes=[{"what": "==, !=, cmp, partial_cmp, < (memcmp cannot be kept symbolic and <str as PartialEq>::eq cannot be stubbed): texts <= 18 bytes; byte-copying re-checks hash_one / display_one: 18 / 6 bytes"}],
+     not_covered=["format flags (width / precision / fill) - Formatter::pad is core's", "PartialEq<String> directions (identical body to the str ones)", "HashMap/BTreeMap lookups (consequence of Borrow + Eq/Hash/Ord agreement)"])
 
 prop("C19", level="other",
      claim="MIXED LEVEL - unbounded contract obligations where stated, otherwise BOUNDED (complete up to the stated size, not a proof beyond it). Built with --features serde,arbitrary in the scratch copy. Serialize: exactly one serialize_str of exactly as_str() (pointer and "
@@ -305,7 +308,7 @@ prop("C19", level="other",
      verus=[],
      trust=["what serde_json / other formats do with one serialize_str call is serde's", "String's own Serialize/Deserialize being the same "
             "single serialize_str / string visitor (documented serde behaviour)"],
-     bounded_notes=[{"what": "Serialize: text <= 18 bytes (any storage kind); Arbitrary: Unstructured over <= 4 bytes with an ASCII-only validator"}],
+     bounded_notes=[{"what": "Serialize is unbounded (serde_serialize_any_*: symbolic sizes, pointer-recording Serializer; serde_serialize re-checks it on texts <= 18 bytes incl. inline); Arbitrary: Unstructured over <= 4 bytes with an ASCII-only validator"}],
      not_covered=["escapes / framing of concrete formats (serde_json)"])
 
 prop("C20", level="proof",
